@@ -41,7 +41,7 @@ def run(ctx):
     if ctx.thorough and ctx.shard == 0 and ctx.only_case is None:
         from ..suite_contracts import run_repo_suite_with_contracts
         run_repo_suite_with_contracts(obs, only='ravel_dimensions,wind_dimension')
-    total = ctx.n(300, 9000)
+    total = ctx.n(600, 12000)
     for case, rng in ctx.cases(total):
         conv = CONVENTIONS[case % len(CONVENTIONS)]
         spec = {'case': case, 'convention': conv}
